@@ -84,12 +84,8 @@ pub fn lib_key(k: &KeySpec) -> Result<HMACKey, String> {
             realm,
             password,
             alg,
-        } => {
-            let user = UserName::new(user).map_err(|e| format!("key user: {}", e))?;
-            let realm = Realm::new(realm).map_err(|e| format!("key realm: {}", e))?;
-            HMACKey::new_long_term(user, realm, password, Algorithm::from(AlgorithmId::from(*alg)))
-                .map_err(|e| format!("key: {}", e))
-        }
+        } => HMACKey::new_long_term(user.as_str(), realm.as_str(), password.as_str(), Algorithm::from(AlgorithmId::from(*alg)))
+            .map_err(|e| format!("key: {}", e)),
         KeySpec::Raw(_) => Err("raw keys are not constructible".into()),
     }
 }
